@@ -283,6 +283,7 @@ func (interp *Interpreter) cfg(root *node, sc *scope, importPath, pkgName string
 							err = o.cfgErrorf("cannot range over %s (type %s)", o.name(), o.typ.id())
 							return false
 						}
+						sc.add(sc.getType("int")) // Add a dummy type to store array shallow copy for range
 						ktyp = sc.getType("int")
 						vtyp = o.typ.val
 						if vtyp.cat == valueT {
